@@ -189,6 +189,7 @@ def run(db, cx):
 
     # -------------------------------------------------------------------- 4. reset
     shared.reset_completeness(db, cx, "C06.4-reset")
+    shared.primaries_handoff(db, cx, "C06.4-primaries-handoff")
 
     # ------------------------------------------------------- 5. observers are inert
     views = ["SimTrackView", "ParticleTrackView", "PhysicsTrackView", "PhysicsStepView",
